@@ -34,7 +34,15 @@ rundemo clean; clean_rc=$?
 rm -f $(for dir in $DIRS; do ls $W/$dir/zz_seed_*; done)
 (cd $W && git apply $S/patch.diff) || { echo "$ID: patch does not apply to HEAD"; exit 4; }
 suite_rc=0
-for m in . otel stores/durablestream stores/sqlite; do (cd $W/$m && go1.26 build ./... && timeout 1500 go1.26 test -vet=off -count=1 -timeout 20m ./... > $W/suite.log 2>&1) || { suite_rc=1; tail -20 $W/suite.log; }; done
+for m in . otel stores/durablestream stores/sqlite; do
+  ok=1
+  for attempt in 1 2 3; do   # the pinned suite has a test that hangs now and then (TestAsyncSequentialHandlerContextCancelled): retry on a time-out
+    (cd $W/$m && go1.26 build ./... && timeout 400 go1.26 test -vet=off -count=1 -timeout 5m ./... > $W/suite.log 2>&1); rc=$?
+    if [ $rc -eq 0 ]; then ok=0; break; fi
+    grep -q "panic: test timed out\|TestAsyncSequentialHandlerContextCancelled" $W/suite.log || break
+  done
+  [ $ok -eq 0 ] || { suite_rc=1; tail -20 $W/suite.log; }
+done
 place
 rundemo patched; patched_rc=$?
 echo "$ID prop=$PROP demo_clean_rc=$clean_rc suite_with_patch_rc=$suite_rc demo_patched_rc=$patched_rc"
